@@ -949,7 +949,11 @@ func RestoreTo(ctx context.Context, replicaDir, out string, txid ltx.TXID, ts ti
 // directory (never deleted by litestream) for the re-composition oracle.
 func (w *World) ArchiveL0() {
 	_ = os.MkdirAll(w.ArchiveDir, 0o755)
-	for _, f := range ListLTX(w.ReplicaDir) {
+	files := ListLTX(w.ReplicaDir)
+	// local level-0 files (the very files that get uploaded) are archived too: a snapshot or compaction may
+	// cover TXIDs whose level-0 file has not been uploaded yet
+	files = append(files, ListLTX(filepath.Join(filepath.Dir(w.DBPath), "."+filepath.Base(w.DBPath)+"-litestream"))...)
+	for _, f := range files {
 		if f.Level != 0 {
 			continue
 		}
@@ -995,3 +999,6 @@ func (w *World) TraceState() string {
 
 // LedgerDB returns the harness's read connection to the source database.
 func (w *World) LedgerDB() *sql.DB { return w.ledgerDB }
+
+// Ctx returns the world's context.
+func (w *World) Ctx() context.Context { return w.ctx }
